@@ -25,7 +25,7 @@ def is_buffer_too_small(res):
 
 def outputs_of(case, res):
     """All files a run created (everything in SimFS that is not an input file)."""
-    inputs = set(gen.input_paths(case))
+    inputs = set(gen.input_paths(case)) | set(case.get("aux_files") or ())
     return {p: d for p, d in res.files.items() if p not in inputs}
 
 
